@@ -94,3 +94,10 @@ reg("C04", MC, "bounded exhaustive enumeration of equivalent-input transformatio
     "Layout/dtype relations at 8 eps x scale; permutation/linearity relations use a conditioning-aware bound from the reference SVD "
     "(Cubic: 1e-4 x range under permutations, SciPy's gradient estimate is order dependent). quick rotates through subsets by seed.",
     "DESIGN.md section 5, C04")
+reg("C05", MC, "bounded exhaustive enumeration of grid/profile/scatter arguments on a coordinate-encoding harness gridder",
+    "A harness gridder whose prediction 1000 e + n (+ 1e6 k) encodes where it was evaluated is driven through grid(), profile() and "
+    "scatter() for every combination of a finite menu of dyadic regions (given or inferred), shapes / spacings, adjust, registration, "
+    "extra coordinates, projections, explicit 1-D / 2-D coordinates, names and component counts; each output cell is decoded and must "
+    "equal the (projected) coordinates of its own row and column; coordinate vectors are compared with the exact rational reference; "
+    "metadata, names and refusals are checked. Real gridders are cross-checked against their own predict.",
+    "Dyadic coordinates make decoding an equality test; only the harness gridder's predict is trusted.", "DESIGN.md section 5, C05")
